@@ -23,6 +23,7 @@ var Registry = map[string]func(tier string){
 	"C16": C16,
 	"C17": C17,
 	"C18": C18,
+	"C19": C19,
 	"C20": C20,
 }
 
